@@ -51,10 +51,14 @@ func (bs *blockScanResult) reset() {
 type blockScanResultBatch struct {
 	err error
 	bss []blockScanResult
+	// bound is set when more blocks follow this batch: the key range of the next block limits what may be
+	// emitted from the blocks scanned so far (see scanBound).
+	bound scanBound
 }
 
 func (bsb *blockScanResultBatch) reset() {
 	bsb.err = nil
+	bsb.bound = scanBound{}
 	for i := range bsb.bss {
 		bsb.bss[i].reset()
 	}
@@ -176,6 +180,18 @@ func (bsn *blockScanner) scan(ctx context.Context, blockCh chan *blockScanResult
 			return
 		}
 
+		// The batch is full and one more block follows: send it together with the bound that block implies.
+		if len(batch.bss) >= batchThreshold || len(batch.bss) >= cap(batch.bss) {
+			batch.bound = bsn.boundOf(bm)
+			if !bsn.sendBatch(ctx, blockCh, batch) {
+				if dl := bsn.l.Debug(); dl.Enabled() {
+					dl.Int("batch.len", len(batch.bss)).Msg("context canceled while sending block")
+				}
+				return
+			}
+			batch = generateBlockScanResultBatch()
+		}
+
 		blockSize := bm.uncompressedSize
 
 		// Check if adding this block would exceed quota
@@ -191,17 +207,6 @@ func (bsn *blockScanner) scan(ctx context.Context, blockCh chan *blockScanResult
 		bsn.addBlockToBatch(batch, bm, p)
 		totalBlockBytes += blockSize
 		scannedBlocks++
-
-		// Check if batch is full
-		if len(batch.bss) >= batchThreshold || len(batch.bss) >= cap(batch.bss) {
-			if !bsn.sendBatch(ctx, blockCh, batch) {
-				if dl := bsn.l.Debug(); dl.Enabled() {
-					dl.Int("batch.len", len(batch.bss)).Msg("context canceled while sending block")
-				}
-				return
-			}
-			batch = generateBlockScanResultBatch()
-		}
 	}
 
 	if it.Error() != nil {
@@ -280,6 +285,15 @@ func (bsn *blockScanner) scanSync(ctx context.Context, consume func(*blockScanRe
 			return consume(batch)
 		}
 
+		// The batch is full and one more block follows: hand it over together with the bound that block implies.
+		if len(batch.bss) >= batchThreshold || len(batch.bss) >= cap(batch.bss) {
+			batch.bound = bsn.boundOf(bm)
+			if consumeErr := consume(batch); consumeErr != nil {
+				return consumeErr
+			}
+			batch = generateBlockScanResultBatch()
+		}
+
 		blockSize := bm.uncompressedSize
 		if exceeded, err := bsn.checkQuotaExceeded(totalBlockBytes, blockSize, batch); exceeded {
 			if err != nil {
@@ -291,13 +305,6 @@ func (bsn *blockScanner) scanSync(ctx context.Context, consume func(*blockScanRe
 		bsn.addBlockToBatch(batch, bm, p)
 		totalBlockBytes += blockSize
 		scannedBlocks++
-
-		if len(batch.bss) >= batchThreshold || len(batch.bss) >= cap(batch.bss) {
-			if consumeErr := consume(batch); consumeErr != nil {
-				return consumeErr
-			}
-			batch = generateBlockScanResultBatch()
-		}
 	}
 
 	if it.Error() != nil {
@@ -311,6 +318,16 @@ func (bsn *blockScanner) scanSync(ctx context.Context, consume func(*blockScanRe
 
 	releaseBlockScanResultBatch(batch)
 	return nil
+}
+
+// boundOf returns the bound the not yet scanned block next implies for the blocks scanned before it: blocks
+// arrive ordered by minKey (ASC) or by maxKey (DESC), so next and every block after it only hold keys at or
+// beyond next's minKey (ASC) / maxKey (DESC).
+func (bsn *blockScanner) boundOf(next *blockMetadata) scanBound {
+	if bsn.asc {
+		return scanBound{key: next.minKey, set: true}
+	}
+	return scanBound{key: next.maxKey, set: true}
 }
 
 // checkContext returns false if context is canceled.
